@@ -249,6 +249,8 @@ func vh_heartbeat() {
 		nRPC++
 		vAssert(id == peer.ID && a.Term == s.currentTerm && a.Term == r.currentTerm, "C01.heartbeat.carries-leader-term")
 		vAssert(len(a.Entries) == 0 && a.LeaderCommitIndex == 0 && a.PrevLogEntry == 0, "C05.heartbeat.carries-no-log-claims")
+		// a heartbeat skips the follower's log check (no previous entry), so it must not carry a commit index
+		vAssert(a.LeaderCommitIndex == 0, "C02.heartbeat.carries-no-commit-index")
 		if rpcFail {
 			return errInjected
 		}
@@ -276,4 +278,189 @@ func vh_heartbeat() {
 		}
 	}
 	vReach("heartbeat.end")
+}
+
+// ---- pipeline ----
+
+type mAppendFuture struct {
+	start time.Time
+	req   *AppendEntriesRequest
+	resp  *AppendEntriesResponse
+}
+
+func (f *mAppendFuture) Error() error                     { return nil }
+func (f *mAppendFuture) Start() time.Time                 { return f.start }
+func (f *mAppendFuture) Request() *AppendEntriesRequest   { return f.req }
+func (f *mAppendFuture) Response() *AppendEntriesResponse { return f.resp }
+
+type mPipeline struct {
+	ch     chan AppendFuture
+	closed bool
+	sent   []*AppendEntriesRequest
+}
+
+func (p *mPipeline) AppendEntries(a *AppendEntriesRequest, resp *AppendEntriesResponse) (AppendFuture, error) {
+	p.sent = append(p.sent, a)
+	return &mAppendFuture{req: a, resp: resp}, nil
+}
+func (p *mPipeline) Consumer() <-chan AppendFuture { return p.ch }
+func (p *mPipeline) Close() error                 { p.closed = true; return nil }
+
+// vh_pipeline_decode: pipelineDecode consumes one pipelined response.
+// C05.FOLLOWER-MATCH (pipeline path), C01 (stale term), C12.
+func vh_pipeline_decode() {
+	r, env := vNewRaft("L", vRaftOpts{n: 2, w: 1, shaped: true})
+	vAssume(vInvBasic(r, env))
+	vMakeLeader(r, "L", 0)
+	peer := r.configurations.latest.Servers[1]
+	s := r.leaderState.replState[peer.ID]
+	vAssume(!s.lastContact.After(time.Now()))
+	nEntries := vChoose("entries", 0, 2)
+	req := &AppendEntriesRequest{Term: s.currentTerm}
+	first := vU64("first")
+	vAssume(first >= 1 && first < 1<<62)
+	for i := 0; i < nEntries; i++ {
+		req.Entries = append(req.Entries, &Log{Index: first + uint64(i), Term: s.currentTerm})
+	}
+	resp := &AppendEntriesResponse{Term: vU64("resp.term"), Success: vBool("resp.success"), LastLog: vU64("resp.lastLog")}
+	p := &mPipeline{ch: make(chan AppendFuture, 1)}
+	p.ch <- &mAppendFuture{start: time.Now(), req: req, resp: resp}
+	vf := &verifyFuture{}
+	vf.init()
+	vf.votes, vf.quorumSize = 1, 3
+	vf.notifyCh = r.verifyCh
+	s.notify[vf] = struct{}{}
+	preNext := s.nextIndex
+	preMatch, hadSlot := r.leaderState.commitment.matchIndexes[peer.ID]
+	preCommit := r.leaderState.commitment.commitIndex
+	stopCh, finishCh := make(chan struct{}), make(chan struct{})
+	vRunUntilBlocked(func() { r.pipelineDecode(s, p, stopCh, finishCh) })
+	postMatch := r.leaderState.commitment.matchIndexes[peer.ID]
+	if resp.Term > req.Term {
+		vCover("pipeline.stale-term")
+		vAssert(len(s.stepDown) == 1 && finishCh != nil, "C01.pipeline.newer-term-steps-down")
+		vAssert(postMatch == preMatch && s.nextIndex == preNext, "C05.pipeline.stale-term-no-match")
+		vAssert(vf.notifyCh == nil, "C09.pipeline.stale-term-votes-verify-down")
+	} else if !resp.Success {
+		vCover("pipeline.rejected")
+		// a rejected pipelined request is not an acknowledgement
+		vAssert(postMatch == preMatch && r.leaderState.commitment.commitIndex == preCommit, "C05.pipeline.rejected-is-no-ack")
+		vAssert(s.nextIndex == preNext, "C12.pipeline.rejected-keeps-next-index")
+		vAssert(vf.votes == 1, "C09.pipeline.rejected-is-no-verify-vote")
+	} else {
+		vCover("pipeline.success")
+		if nEntries > 0 {
+			last := first + uint64(nEntries) - 1
+			vAssert(s.nextIndex == last+1, "C12.pipeline.next-index-advances")
+			if hadSlot {
+				vAssert(postMatch == vIte64(last > preMatch, last, preMatch), "C05.pipeline.match-is-last-entry-sent")
+			}
+		} else {
+			vAssert(postMatch == preMatch && s.nextIndex == preNext, "C05.pipeline.empty-request-no-match")
+		}
+		vAssert(vf.votes == 2, "C09.pipeline.success-counts-one-vote")
+	}
+	vAssert(r.leaderState.commitment.commitIndex >= preCommit, "C05.pipeline.commit-mono")
+	vReach("pipeline.end")
+}
+
+// vh_elect_self: electSelf with every stable-store write failing or not; a
+// failure models a crash at the same point (the durable image is the same).
+// The durable invariant must hold on every image. C06.CRASH (election side), C01.SELF-VOTE.
+func vh_elect_self() {
+	r, env := vNewRaft("c", vRaftOpts{n: 1})
+	vAssume(vInvBasic(r, env))
+	r.localID = r.configurations.latest.Servers[0].ID
+	r.localAddr = r.configurations.latest.Servers[0].Address
+	r.state = Candidate
+	st := env.stable
+	st.failOn = true
+	pre := vSnap(r, env)
+	preVoteCandSelf := vBlobEq(st.voteCand, []byte(r.localAddr))
+	_ = preVoteCandSelf
+	var ch <-chan *voteResult
+	panicked := vCatch(func() { ch = r.electSelf() })
+	// the durable image after any prefix of the writes: never a vote record of a term the term record has not reached
+	vAssert(st.voteTerm <= st.term, "C06.elect.durable-vote-term-le-current-term")
+	vAssert(st.term >= pre.stTerm && st.term <= pre.stTerm+1, "C06.elect.term-bumped-by-at-most-one")
+	// order of durable writes: the term first, then the vote record
+	termAt, voteAt := -1, -1
+	for i, c := range st.calls {
+		if c.ok && c.op == opStableSetU64 && c.a == 1 && termAt < 0 {
+			termAt = i
+		}
+		if c.ok && (c.op == opStableSet || (c.op == opStableSetU64 && c.a == 2)) && voteAt < 0 {
+			voteAt = i
+		}
+	}
+	vAssert(voteAt < 0 || (termAt >= 0 && termAt < voteAt), "C06.elect.term-durable-before-vote")
+	vAssert(voteAt < 0 || (termAt >= 0 && termAt < voteAt), "C01.elect.term-durable-before-vote")
+	if panicked {
+		vCover("elect.term-write-failed")
+		vAssert(st.term == pre.stTerm && st.voteTerm == pre.stVoteTerm && vSameBlob(st.voteCand, pre.stVoteCand), "C06.elect.failed-term-write-changes-nothing")
+	} else if ch != nil && len(ch) == 1 {
+		vCover("elect.self-vote-counted")
+		// the self vote is enqueued only after it is durable
+		vAssert(st.voteTerm == pre.term+1 && vBlobEq(st.voteCand, []byte(r.localAddr)) && st.term == pre.term+1, "C01.elect.self-vote-durable-before-counted")
+	} else {
+		vCover("elect.self-vote-not-counted")
+	}
+	vReach("elect.end")
+}
+
+// vh_ae_faults: appendEntries with failing log-store calls (GetLog, DeleteRange,
+// StoreLogs). A failed write is never acknowledged, and whatever the cached
+// last-log position is afterwards, it never names an entry of the store with a
+// different term (the previous-entry fast path trusts it).
+func vh_ae_faults() {
+	w := 2
+	r, env := vNewRaft("f", vRaftOpts{n: 1, w: w, shaped: true})
+	s := env.logs
+	l := vNewPeerLog("L", w)
+	vAssume(vInvBasic(r, env))
+	vAssume(vInvLog(r, env, w))
+	vAssume(vLogMatching(r, s, l, w))
+	vAssume(r.state == Follower)
+	a, sh := vBuildAE(l, "a", w)
+	vAssume(a.Term == r.currentTerm)
+	vAssume(len(a.Addr) > 0)
+	a.LeaderCommitIndex = 0
+	base := vBase()
+	pre := vSnap(r, env)
+	s.failOn = true
+	rpc, ch := vMakeRPC(a)
+	panicked := vCatch(func() { r.appendEntries(rpc, a) })
+	s.failOn = false
+	vAssert(!panicked, "C04.aefault.no-panic")
+	if panicked {
+		return
+	}
+	out := <-ch
+	resp := out.Response.(*AppendEntriesResponse)
+	stored, failedWrite := false, false
+	for _, c := range s.calls {
+		if c.op == opStoreLogs || c.op == opDeleteRange {
+			if c.ok {
+				stored = stored || c.op == opStoreLogs
+			} else {
+				failedWrite = true
+			}
+		}
+	}
+	if failedWrite {
+		vCover("aefault.write-failed")
+		vAssert(!resp.Success, "C03.aefault.failed-write-never-acked")
+		vAssert(!resp.Success, "C04.aefault.failed-write-never-acked")
+	}
+	if resp.Success && sh.n > 0 {
+		for k := sh.prevOff + 1; k <= sh.prevOff+sh.n; k++ {
+			idx := base + uint64(k)
+			vAssert(vOr(s.has(idx), idx <= r.lastSnapshotIndex), "C03.aefault.acked-entries-are-stored")
+		}
+	}
+	// the cache never claims a term the store contradicts
+	li, lt := r.getLastLog()
+	vAssert(vImplies(s.has(li), s.term.Get(li) == lt), "C04.aefault.cached-last-log-term-matches-store")
+	vAssert(r.commitIndex == pre.commit && r.lastApplied == pre.applied, "C05.aefault.no-commit-without-leader-commit")
+	vReach("aefault.end")
 }
